@@ -154,6 +154,16 @@ func (i *initialStatus) process() (*initialStatusResult, error) {
 				aggLayerLastCert.ID()),
 			cert: aggLayerLastCert}, nil
 	}
+	// CASE 3.3: aggsender stopped between sending the retry of an InError certificate to agglayer
+	// and storing it to the local storage: agglayer holds a newer certificate for the same height
+	if aggLayerLastCert.Height == localLastCert.Height &&
+		localLastCert.Status.IsInError() &&
+		localLastCert.CertificateID != aggLayerLastCert.CertificateID {
+		return &initialStatusResult{action: InitialStatusActionInsertNewCert,
+			message: fmt.Sprintf("local cert %s is InError and agglayer have a newer cert for the same height, storing cert: %s",
+				localLastCert.ID(), aggLayerLastCert.ID()),
+			cert: aggLayerLastCert}, nil
+	}
 	// CASE 4: AggSender and AggLayer are not on the same page
 	// note: we don't need to check individual fields of the certificate
 	// because CertificateID is a hash of all the fields
